@@ -16,7 +16,11 @@ Proof.
   split; [intros []; subst; auto | inversion 1; auto].
 Qed.
 
-Inductive comp := Ret (r : triple) | CallK (k : key) (cont : triple -> comp).
+Inductive comp :=
+| Ret (r : triple)
+| CallK (k : key) (cont : triple -> comp)      (* memoised call: (CALL, function, pos) is hashable *)
+| CallU (c : comp) (cont : triple -> comp).    (* call whose key cannot be hashed (unhashable argument of a
+                                                  parameterised rule): evaluated in a frame with key None *)
 
 Variable body : key -> comp.        (* what the generator for (rule,pos) does *)
 Variable dummy : triple.            (* Python sends None to a fresh generator *)
@@ -31,6 +35,10 @@ Fixpoint run_comp (n : nat) (c : comp) : option triple :=
                              | None => None
                              | Some r => run_comp n (cont r)
                              end
+           | CallU c0 cont => match run_comp n c0 with
+                              | None => None
+                              | Some r => run_comp n (cont r)
+                              end
            end
   end.
 Definition eval n k := run_comp n (body k).
@@ -38,10 +46,13 @@ Definition eval n k := run_comp n (body k).
 Lemma run_comp_mono : forall n c r, run_comp n c = Some r -> run_comp (S n) c = Some r.
 Proof.
   induction n as [|n IH]; intros c r H; [discriminate|].
-  destruct c as [r0|k cont]; [exact H|].
-  cbn [run_comp] in H. destruct (run_comp n (body k)) as [r1|] eqn:E; [|discriminate].
-  change (match run_comp (S n) (body k) with Some r2 => run_comp (S n) (cont r2) | None => None end = Some r).
-  rewrite (IH _ _ E). apply IH. exact H.
+  destruct c as [r0|k cont|c0 cont]; [exact H| |].
+  - cbn [run_comp] in H. destruct (run_comp n (body k)) as [r1|] eqn:E; [|discriminate].
+    change (match run_comp (S n) (body k) with Some r2 => run_comp (S n) (cont r2) | None => None end = Some r).
+    rewrite (IH _ _ E). apply IH. exact H.
+  - cbn [run_comp] in H. destruct (run_comp n c0) as [r1|] eqn:E; [|discriminate].
+    change (match run_comp (S n) c0 with Some r2 => run_comp (S n) (cont r2) | None => None end = Some r).
+    rewrite (IH _ _ E). apply IH. exact H.
 Qed.
 
 Lemma run_comp_mono' n m c r : n <= m -> run_comp n c = Some r -> run_comp m c = Some r.
@@ -57,20 +68,25 @@ Qed.
 Definition memo := key -> option triple.
 Definition upd (m : memo) (k : key) (r : triple) : memo :=
   fun k' => if key_eqb k' k then Some r else m k'.
+Definition store (m : memo) (ok : option key) (r : triple) : memo :=
+  match ok with Some k => upd m k r | None => m end.     (* `if key is not None: memo[key] = result` *)
 
-Record mstate := MS { stack : list (key * (triple -> comp)); mem : memo; cur : triple; log : list key }.
+Definition frame : Type := (option key * (triple -> comp)).
+Record mstate := MS { stack : list frame; mem : memo; cur : triple; log : list key; ustarts : nat }.
 
 Definition step (s : mstate) : mstate :=
   match stack s with
   | [] => s
-  | (k, f) :: rest =>
+  | (ok, f) :: rest =>
     match f (cur s) with
-    | Ret r => MS rest (upd (mem s) k r) r (log s)
+    | Ret r => MS rest (store (mem s) ok r) r (log s) (ustarts s)
     | CallK k' cont =>
       match mem s k' with
-      | Some r => MS ((k, cont) :: rest) (mem s) r (log s)
-      | None => MS ((k', fun _ => body k') :: (k, cont) :: rest) (mem s) dummy (k' :: log s)
+      | Some r => MS ((ok, cont) :: rest) (mem s) r (log s) (ustarts s)
+      | None => MS ((Some k', fun _ => body k') :: (ok, cont) :: rest) (mem s) dummy (k' :: log s) (ustarts s)
       end
+    | CallU c0 cont =>
+      MS ((None, fun _ => c0) :: (ok, cont) :: rest) (mem s) dummy (log s) (S (ustarts s))
     end
   end.
 
@@ -82,133 +98,187 @@ Proof. revert s; induction a; intros; cbn; auto. Qed.
 
 Definition memo_ok (m : memo) := forall k r, m k = Some r -> exists n, eval n k = Some r.
 Definition memo_le (m m' : memo) := forall k r, m k = Some r -> m' k = Some r.
+Definition is_value (ok : option key) (r : triple) : Prop :=
+  match ok with Some k => exists n0, eval n0 k = Some r | None => True end.
+Definition stored (m : memo) (ok : option key) (r : triple) : Prop :=
+  match ok with Some k => m k = Some r | None => True end.
 
 (* ---- memo transparency ---- *)
-Theorem frame_runs : forall n f c k rest m lg r,
-  memo_ok m -> run_comp n (f c) = Some r -> (exists n0, eval n0 k = Some r) ->
-  exists j m' lg',
-    steps j (MS ((k, f) :: rest) m c lg) = MS rest m' r lg' /\
-    memo_ok m' /\ memo_le m m' /\ m' k = Some r.
+Theorem frame_runs : forall n f c ok rest m lg u r,
+  memo_ok m -> run_comp n (f c) = Some r -> is_value ok r ->
+  exists j m' lg' u',
+    steps j (MS ((ok, f) :: rest) m c lg u) = MS rest m' r lg' u' /\
+    memo_ok m' /\ memo_le m m' /\ stored m' ok r.
 Proof.
-  induction n as [|n IH]; intros f c k rest m lg r Hm Hrun Hk; [discriminate|].
-  cbn [run_comp] in Hrun. destruct (f c) as [r0|k' cont] eqn:Ef.
-  - inversion Hrun; subst r0. exists 1, (upd m k r), lg. cbn. unfold step; cbn. rewrite Ef.
-    repeat split; auto.
-    + intros k1 r1 H1. unfold upd in H1. destruct (key_eqb k1 k) eqn:E.
-      * apply key_eqb_eq in E. subst. inversion H1; subst. exact Hk.
-      * apply Hm; auto.
-    + intros k1 r1 H1. unfold upd. destruct (key_eqb k1 k) eqn:E; auto.
-      apply key_eqb_eq in E. subst k1.
-      destruct Hk as (n0 & Hn0). destruct (Hm _ _ H1) as (n1 & Hn1).
-      f_equal. eapply run_comp_det; eauto.
-    + unfold upd. replace (key_eqb k k) with true; auto. symmetry. apply key_eqb_eq. auto.
+  induction n as [|n IH]; intros f c ok rest m lg u r Hm Hrun Hk; [discriminate|].
+  cbn [run_comp] in Hrun. destruct (f c) as [r0|k' cont|c0 cont] eqn:Ef.
+  - inversion Hrun; subst r0. exists 1, (store m ok r), lg, u. cbn. unfold step; cbn. rewrite Ef.
+    destruct ok as [k|]; cbn [store stored is_value] in *.
+    + repeat split; auto.
+      * intros k1 r1 H1. unfold upd in H1. destruct (key_eqb k1 k) eqn:E.
+        -- apply key_eqb_eq in E. subst. inversion H1; subst. exact Hk.
+        -- apply Hm; auto.
+      * intros k1 r1 H1. unfold upd. destruct (key_eqb k1 k) eqn:E; auto.
+        apply key_eqb_eq in E. subst k1.
+        destruct Hk as (n0 & Hn0). destruct (Hm _ _ H1) as (n1 & Hn1).
+        f_equal. eapply run_comp_det; eauto.
+      * unfold upd. replace (key_eqb k k) with true; auto. symmetry. apply key_eqb_eq. auto.
+    + repeat split; auto. intros k1 r1 H1. exact H1.
   - destruct (run_comp n (body k')) as [r1|] eqn:Eb; [|discriminate].
     destruct (m k') as [rm|] eqn:Em.
     + (* memo hit: replayed value equals direct evaluation *)
       assert (rm = r1). { destruct (Hm _ _ Em) as (n1 & Hn1). eapply run_comp_det; eauto. }
       subst rm.
-      destruct (IH (fun x => cont x) r1 k rest m lg r Hm Hrun Hk) as (j & m' & lg' & Hs & H1 & H2 & H3).
-      exists (S j), m', lg'. cbn [steps]. unfold step at 1; cbn. rewrite Ef, Em. auto.
+      destruct (IH (fun x => cont x) r1 ok rest m lg u r Hm Hrun Hk) as (j & m' & lg' & u' & Hs & H1 & H2 & H3).
+      exists (S j), m', lg', u'. cbn [steps]. unfold step at 1; cbn. rewrite Ef, Em. auto.
     + (* miss: push callee, run it, then resume *)
-      destruct (IH (fun _ => body k') dummy k' ((k, cont) :: rest) m (k' :: lg) r1 Hm Eb
-                   (ex_intro _ n Eb)) as (j1 & m1 & lg1 & Hs1 & Hok1 & Hle1 & Hk1).
-      destruct (IH (fun x => cont x) r1 k rest m1 lg1 r Hok1 Hrun Hk) as (j2 & m2 & lg2 & Hs2 & Hok2 & Hle2 & Hk2).
-      exists (S (j1 + j2)), m2, lg2. cbn [steps]. unfold step at 1; cbn. rewrite Ef, Em.
+      destruct (IH (fun _ => body k') dummy (Some k') ((ok, cont) :: rest) m (k' :: lg) u r1 Hm Eb
+                   (ex_intro _ n Eb)) as (j1 & m1 & lg1 & u1 & Hs1 & Hok1 & Hle1 & Hk1).
+      destruct (IH (fun x => cont x) r1 ok rest m1 lg1 u1 r Hok1 Hrun Hk) as (j2 & m2 & lg2 & u2 & Hs2 & Hok2 & Hle2 & Hk2).
+      exists (S (j1 + j2)), m2, lg2, u2. cbn [steps]. unfold step at 1; cbn. rewrite Ef, Em.
       rewrite steps_add, Hs1. repeat split; auto.
       intros k1 rr H. apply Hle2, Hle1, H.
+  - (* unkeyed call: its frame stores nothing, its own keyed calls are memoised as usual *)
+    destruct (run_comp n c0) as [r1|] eqn:Eb; [|discriminate].
+    destruct (IH (fun _ => c0) dummy None ((ok, cont) :: rest) m lg (S u) r1 Hm Eb I)
+      as (j1 & m1 & lg1 & u1 & Hs1 & Hok1 & Hle1 & _).
+    destruct (IH (fun x => cont x) r1 ok rest m1 lg1 u1 r Hok1 Hrun Hk) as (j2 & m2 & lg2 & u2 & Hs2 & Hok2 & Hle2 & Hk2).
+    exists (S (j1 + j2)), m2, lg2, u2. cbn [steps]. unfold step at 1; cbn. rewrite Ef.
+    rewrite steps_add, Hs1. repeat split; auto.
+    intros k1 rr H. apply Hle2, Hle1, H.
 Qed.
 
 Corollary run_transparent n start_key r :
   eval n start_key = Some r ->
-  exists j m' lg', steps j (MS [(start_key, fun _ => body start_key)] (fun _ => None) dummy [start_key])
-                   = MS [] m' r lg' /\ memo_ok m'.
+  exists j m' lg' u', steps j (MS [(Some start_key, fun _ => body start_key)] (fun _ => None) dummy [start_key] 0)
+                   = MS [] m' r lg' u' /\ memo_ok m'.
 Proof.
   intros H.
-  destruct (frame_runs n (fun _ => body start_key) dummy start_key [] (fun _ => None) [start_key] r) as (j & m' & lg' & Hs & Hok & _ & _); eauto.
+  destruct (frame_runs n (fun _ => body start_key) dummy (Some start_key) [] (fun _ => None) [start_key] 0 r)
+    as (j & m' & lg' & u' & Hs & Hok & _ & _).
   - intros k r0 H0; discriminate.
+  - exact H.
+  - exists n. exact H.
+  - exists j, m', lg', u'. auto.
 Qed.
 
 (* ---- at most once per key, under the exact "no left recursion" hypothesis ---- *)
 Variable R : key -> nat.
 Inductive calls_lt (b : nat) : comp -> Prop :=
 | CL_ret r : calls_lt b (Ret r)
-| CL_call k' cont : R k' < b -> (forall r, calls_lt b (cont r)) -> calls_lt b (CallK k' cont).
+| CL_call k' cont : R k' < b -> (forall r, calls_lt b (cont r)) -> calls_lt b (CallK k' cont)
+| CL_callu c0 cont : calls_lt b c0 -> (forall r, calls_lt b (cont r)) -> calls_lt b (CallU c0 cont).
 Hypothesis ranked : forall k, calls_lt (R k) (body k).
 
-Fixpoint ranks_ok' (b : nat) (st : list (key * (triple -> comp))) : Prop :=
+(* keys of the keyed frames, top of the stack first *)
+Fixpoint keys (st : list frame) : list key :=
   match st with
-  | [] => True
-  | (k, f) :: rest => b < R k /\ (forall c, calls_lt (R k) (f c)) /\ ranks_ok' (R k) rest
+  | [] => []
+  | (Some k, _) :: rest => k :: keys rest
+  | (None, _) :: rest => keys rest
   end.
-Definition stack_ok (st : list (key * (triple -> comp))) : Prop :=
+Lemma keys_some k g st : keys ((Some k, g) :: st) = k :: keys st.
+Proof. reflexivity. Qed.
+Lemma keys_none g st : keys ((None, g) :: st) = keys st.
+Proof. reflexivity. Qed.
+Lemma keys_cont ok f g st : keys ((ok, g) :: st) = keys ((ok, f) :: st).
+Proof. destruct ok; reflexivity. Qed.
+(* ranks strictly increase down the stack *)
+Fixpoint incr (b : nat) (l : list key) : Prop :=
+  match l with [] => True | k :: l' => b < R k /\ incr (R k) l' end.
+Definition sorted (l : list key) : Prop :=
+  match l with [] => True | k :: l' => incr (R k) l' end.
+(* every frame only calls below the nearest keyed frame at or beneath it (an unkeyed frame is part of
+   the body of the keyed frame that made the call) *)
+Fixpoint conts_ok (st : list frame) : Prop :=
   match st with
   | [] => True
-  | (k, f) :: rest => (forall c, calls_lt (R k) (f c)) /\ ranks_ok' (R k) rest
+  | (ok, f) :: rest =>
+    match keys st with
+    | k :: _ => forall c, calls_lt (R k) (f c)
+    | [] => False
+    end /\ conts_ok rest
   end.
 
 Definition inv (s : mstate) : Prop :=
-  stack_ok (stack s) /\
+  conts_ok (stack s) /\ sorted (keys (stack s)) /\
   NoDup (log s) /\
-  (forall k, In k (log s) <-> (mem s k <> None \/ In k (map fst (stack s)))) /\
-  (forall k, In k (map fst (stack s)) -> mem s k = None).
+  (forall k, In k (log s) <-> (mem s k <> None \/ In k (keys (stack s)))) /\
+  (forall k, In k (keys (stack s)) -> mem s k = None).
 
-Lemma ranks_ok'_gt b st : ranks_ok' b st -> forall k, In k (map fst st) -> b < R k.
+Lemma incr_gt b l : incr b l -> forall k, In k l -> b < R k.
 Proof.
-  revert b; induction st as [|[k f] rest IH]; intros b H k0 Hin; [contradiction|].
-  cbn in H, Hin. destruct H as (H1 & H2 & H3). destruct Hin as [<-|Hin]; auto.
-  specialize (IH _ H3 _ Hin). lia.
+  revert b; induction l as [|k l IH]; intros b H k0 Hin; [contradiction|].
+  cbn in H, Hin. destruct H as (H1 & H2). destruct Hin as [<-|Hin]; auto.
+  specialize (IH _ H2 _ Hin). lia.
 Qed.
+Lemma sorted_tail k l : sorted (k :: l) -> sorted l.
+Proof. destruct l as [|k1 l1]; cbn; auto. tauto. Qed.
 
 Lemma key_eqb_refl k : key_eqb k k = true.
 Proof. apply key_eqb_eq. reflexivity. Qed.
 
 Lemma step_inv s : inv s -> inv (step s).
 Proof.
-  intros (Hr & Hnd & Hlog & Hsm). unfold step.
-  destruct (stack s) as [|[k f] rest] eqn:Es.
-  { unfold inv. rewrite Es. split; [exact Hr | split; [exact Hnd | split; [exact Hlog | exact Hsm]]]. }
-  cbn in Hr. destruct Hr as (Hf & Hrest).
-  pose proof (ranks_ok'_gt _ _ Hrest) as Hgt.
-  destruct (f (cur s)) as [r|k' cont] eqn:Ef.
+  intros (Hc & Hs & Hnd & Hlog & Hsm). unfold step.
+  destruct (stack s) as [|[ok f] rest] eqn:Es.
+  { unfold inv. rewrite Es. repeat split; auto; apply Hlog. }
+  cbn [conts_ok] in Hc. destruct Hc as (Hf & Hrest).
+  unfold frame in *.
+  destruct (f (cur s)) as [r|k' cont|c0 cont] eqn:Ef.
   - (* pop *)
     unfold inv; cbn [stack mem log cur].
-    split; [|split; [exact Hnd|split]].
-    + destruct rest as [|[k1 f1] rest1]; cbn in *; auto. tauto.
-    + intros k0. rewrite Hlog. cbn [map fst In]. unfold upd.
-      destruct (key_eqb k0 k) eqn:E.
-      * apply key_eqb_eq in E. subst k0. split; intros _; [left; discriminate | right; left; reflexivity].
-      * split.
-        -- intros [H|[H|H]]; auto. subst. rewrite key_eqb_refl in E. discriminate.
-        -- intros [H|H]; auto.
-    + intros k0 Hin. unfold upd. destruct (key_eqb k0 k) eqn:E.
-      * apply key_eqb_eq in E. subst. specialize (Hgt _ Hin). lia.
-      * apply Hsm. cbn. auto.
-  - pose proof (Hf (cur s)) as Hc. rewrite Ef in Hc. inversion Hc as [|? ? Hlt Hcont]; subst.
+    destruct ok as [k|]; cbn [store]; rewrite ?keys_some, ?keys_none in *.
+    + pose proof (incr_gt _ _ Hs) as Hgt.
+      split; [exact Hrest|]. split; [eapply sorted_tail; eauto|]. split; [exact Hnd|]. split.
+      * intros k0. rewrite Hlog. cbn [In]. unfold upd.
+        destruct (key_eqb k0 k) eqn:E.
+        -- apply key_eqb_eq in E. subst k0. split; intros _; [left; discriminate | right; left; reflexivity].
+        -- split.
+           ++ intros [H|[H|H]]; auto. subst. rewrite key_eqb_refl in E. discriminate.
+           ++ intros [H|H]; auto.
+      * intros k0 Hin. unfold upd. destruct (key_eqb k0 k) eqn:E.
+        -- apply key_eqb_eq in E. subst. specialize (Hgt _ Hin). lia.
+        -- apply Hsm. cbn. auto.
+    + split; [exact Hrest|]. split; [exact Hs|]. split; [exact Hnd|]. split; [exact Hlog|exact Hsm].
+  - destruct (keys ((ok, f) :: rest)) as [|k kl] eqn:Ek; [contradiction|].
+    assert (Ek' : forall g, keys ((ok, g) :: rest) = k :: kl).
+    { intros g. rewrite (keys_cont ok f g). exact Ek. }
+    pose proof (Hf (cur s)) as Hcl. rewrite Ef in Hcl. inversion Hcl as [|? ? Hlt Hcont|]; subst.
     destruct (mem s k') as [rm|] eqn:Em.
     + (* hit *)
-      unfold inv; cbn [stack mem log cur].
-      split; [|split; [exact Hnd|split]].
-      * cbn. split; auto.
-      * intros k0. rewrite Hlog. cbn. tauto.
-      * intros k0 Hin. apply Hsm. exact Hin.
+      unfold inv; cbn [stack mem log cur]. rewrite !Ek'.
+      split; [|split; [exact Hs|split; [exact Hnd|split; [exact Hlog|exact Hsm]]]].
+      cbn [conts_ok]. rewrite Ek'. split; auto.
     + (* miss: push *)
+      pose proof (incr_gt _ _ Hs) as Hgt.
       assert (Hnot : ~ In k' (log s)).
       { intros Hin. apply Hlog in Hin. destruct Hin as [H|H]; [congruence|].
         cbn in H. destruct H as [H|H]; [subst; lia|]. specialize (Hgt _ H). lia. }
-      unfold inv; cbn [stack mem log cur].
-      split; [|split; [|split]].
-      * cbn. split; [intros _; apply ranked|]. split; [exact Hlt|]. split; [exact Hcont|exact Hrest].
+      unfold inv; cbn [stack mem log cur]. rewrite keys_some, !Ek'.
+      split; [|split; [|split; [|split]]].
+      * cbn [conts_ok]. rewrite keys_some, Ek'. split; [intros _; apply ranked|]. split; auto.
+      * cbn. split; [exact Hlt|exact Hs].
       * constructor; auto.
-      * intros k0. cbn [In map fst]. rewrite Hlog. cbn [In map fst]. tauto.
+      * intros k0. cbn [In]. rewrite Hlog. cbn [In]. tauto.
       * intros k0 [H|H]; [subst; exact Em|]. apply Hsm. exact H.
+  - (* unkeyed call: a frame with key None on top; the keyed frames and the log are unchanged *)
+    destruct (keys ((ok, f) :: rest)) as [|k kl] eqn:Ek; [contradiction|].
+    assert (Ek' : forall g, keys ((ok, g) :: rest) = k :: kl).
+    { intros g. rewrite (keys_cont ok f g). exact Ek. }
+    pose proof (Hf (cur s)) as Hcl. rewrite Ef in Hcl. inversion Hcl as [| |? ? Hc0 Hcont]; subst.
+    unfold inv; cbn [stack mem log cur]. rewrite keys_none, !Ek'.
+    split; [|split; [exact Hs|split; [exact Hnd|split; [exact Hlog|exact Hsm]]]].
+    cbn [conts_ok]. rewrite keys_none, !Ek'. split; [intros _; exact Hc0|]. split; auto.
 Qed.
 
 Theorem at_most_once j k0 :
-  NoDup (log (steps j (MS [(k0, fun _ => body k0)] (fun _ => None) dummy [k0]))).
+  NoDup (log (steps j (MS [(Some k0, fun _ => body k0)] (fun _ => None) dummy [k0] 0))).
 Proof.
-  assert (H0 : inv (MS [(k0, fun _ => body k0)] (fun _ => None) dummy [k0])).
-  { unfold inv; cbn [stack mem log cur]. split; [|split; [|split]].
+  assert (H0 : inv (MS [(Some k0, fun _ => body k0)] (fun _ => None) dummy [k0] 0)).
+  { unfold inv; cbn [stack mem log cur keys]. split; [|split; [|split; [|split]]].
     - cbn. split; auto.
+    - exact I.
     - constructor; [intros []|constructor].
     - intros k. cbn. split; [intros [H|[]]; auto | intros [H|[H|[]]]; auto; congruence].
     - intros k _. reflexivity. }
@@ -254,22 +324,32 @@ End Bound.
 (* ---- executable instance used by the correspondence check: scripted bodies ----
    body k makes the calls listed for k, in order; it stops at the first call that
    fails (status false) and then fails itself at that call's position; otherwise it
-   succeeds with value = 1 + sum of the callee values, position = max of positions. *)
+   succeeds with value = 1 + sum of the callee values, position = max of positions.
+   A call is either memoised (CK k) or goes through an unhashable key (CU k: the body
+   of k evaluated in an unkeyed frame; d bounds the nesting of such calls). *)
+Inductive call := CK (k : key) | CU (k : key).
 Section Script.
-Variable scr : list (key * list key).
-Fixpoint calls_of (l : list (key * list key)) (k : key) : list key :=
+Variable scr : list (key * list call).
+Fixpoint calls_of (l : list (key * list call)) (k : key) : list call :=
   match l with
   | [] => []
   | (k', cs) :: l' => if key_eqb k' k then cs else calls_of l' k
   end.
-Fixpoint comp_of (cs : list key) (acc p : nat) : comp nat :=
+Definition after (rest : nat -> nat -> comp nat) (acc p : nat) (r : triple nat) : comp nat :=
+  let '(st, v, q) := r in if st then rest (acc + v) (Nat.max p q) else Ret nat (false, 0, q).
+Fixpoint comp_of (d : nat) : list call -> nat -> nat -> comp nat :=
+  fix go (cs : list call) (acc p : nat) : comp nat :=
   match cs with
   | [] => Ret nat (true, acc, p)
-  | c :: cs' => CallK nat c (fun r => let '(st, v, q) := r in
-                                      if st then comp_of cs' (acc + v) (Nat.max p q)
-                                      else Ret nat (false, 0, q))
+  | CK c :: cs' => CallK nat c (after (go cs') acc p)
+  | CU c :: cs' =>
+    match d with
+    | 0 => Ret nat (false, 0, p)
+    | S d' => CallU nat (comp_of d' (calls_of scr c) 1 (snd c)) (after (go cs') acc p)
+    end
   end.
-Definition sbody (k : key) : comp nat := comp_of (calls_of scr k) 1 (snd k).
+Variable depth : nat.
+Definition sbody (k : key) : comp nat := comp_of depth (calls_of scr k) 1 (snd k).
 Definition sdummy : triple nat := (false, 0, 0).
 
 Fixpoint run_steps (fuel : nat) (s : mstate nat) : mstate nat * bool :=
@@ -278,5 +358,5 @@ Fixpoint run_steps (fuel : nat) (s : mstate nat) : mstate nat * bool :=
   | _ => match fuel with 0 => (s, false) | S f => run_steps f (step nat sbody sdummy s) end
   end.
 Definition run_script (fuel : nat) (start : key) : mstate nat * bool :=
-  run_steps fuel (MS nat [(start, fun _ => sbody start)] (fun _ => None) sdummy [start]).
+  run_steps fuel (MS nat [(Some start, fun _ => sbody start)] (fun _ => None) sdummy [start] 0).
 End Script.
